@@ -580,28 +580,41 @@ def d1(repo: Repo) -> RuleResult:
     # ---------------- planner (optimization mode)
     try:
         m2, fm, pfuncs, plw = _planner(repo)
+        from .flows import compiler_flow as _cfp
+        from .normal import V as _Vp
+        from .pyflow import single_atom as _sap
+
+        pflow = _cfp(repo, "Formatter", "renderer/formatter.py", inline=lambda n_, f_: not n_.startswith("format_"))
         for direction, fname, item in (("encode", "format_op_mode_encode_single_byte", "format_op_mode_encoder_item"), ("decode", "format_op_mode_decode_single_byte", "format_op_mode_decoder_item")):
             fn = pfuncs.get(fname)
             if fn is None:
                 res.unsure(f"D1: planner {fname} vanished")
                 continue
-            eff, env = plw.summarize(fn)
-            rets = [e for e in eff if e.kind == "return"]
-            res.inst(part="planner", function=fname, direction=direction, returns=[repr(r) for r in rets])
-            if len(rets) != 1:
-                res.unsure(f"D1: planner {fname}: not a single return (shape gate)")
+            ps_ = [a_.arg for a_ in fn.args.args]
+            if len(ps_) != 6:
+                res.unsure(f"D1: planner {fname}: parameter list is {ps_}")
                 continue
-            a = _single_atom(rets[0].args[0])
-            if a is None or a[0] != "call" or a[1] != item:
+            # (self, t, chain, i, j, c): stream cursor, field cursor, chunk size by position
+            envp = {ps_[0]: _Vp("self"), ps_[1]: _Vp("t"), ps_[2]: _Vp("chain"), ps_[3]: _Vp("i"), ps_[4]: _Vp("j"), ps_[5]: _Vp("c")}
+            rets = [p_ for p_ in pflow.run(fn, envp) if p_.done == "return" and p_.ret is not None]
+            res.inst(part="planner", function=fname, direction=direction, returns=[show(r.ret) for r in rets])
+            if len(rets) != 1 or rets[0].guards:
+                res.unsure(f"D1: planner {fname}: not a single unconditional return (shape gate)")
+                continue
+            a = _sap(rets[0].ret)
+            if a is None or a[0] != "mcall" or a[1] != item:
                 res.unsure(f"D1: planner {fname}: does not return {item}(...)")
                 continue
-            args = list(a[2])
+            args = list(a[2][1:])
             # parameters of the item formatter: (chain, t, si, fi, shift, mask, r)
             pnames = [x.arg for x in pfuncs[item].args.args if x.arg != "self"] if item in pfuncs else []
-            if pnames != ["chain", "t", "si", "fi", "shift", "mask", "r"] or len(args) != 7:
-                res.unsure(f"D1: planner: parameter list of {item} is {pnames}")
+            pos_args = [x for x in args if not ((_sap(x) or ("",))[0] == "kw")]
+            kw_args = {_sap(x)[1]: _sap(x)[2] for x in args if (_sap(x) or ("",))[0] == "kw"}
+            got = dict(zip(pnames, pos_args))
+            got.update(kw_args)
+            if pnames != ["chain", "t", "si", "fi", "shift", "mask", "r"] or set(got) != set(pnames):
+                res.unsure(f"D1: planner: {item} takes {pnames} and is called with {sorted(got)}")
                 continue
-            got = dict(zip(pnames, args))
             spec = SPEC[direction]
             own = mod8(i_) if direction == "encode" else mod8(j_)
             want = {"si": div8(i_), "fi": div8(j_), "shift": spec["shift"], "mask": spec["mask"], "r": own}
